@@ -1,7 +1,7 @@
 (* C09 — the monitor accepts every trace of the abstract book; with
-   Proofs_mem: it accepts every calm trace of the in-memory model; the
-   sentences of the property about A; refuting witnesses for the full
-   (hypothesis-free) statements on both models. *)
+   Proofs_mem: it accepts every trace of the in-memory model (clock moving
+   forward, below ConnectedAddrTTL); the sentences of the property about A;
+   the former finding witnesses, now accepted on both models. *)
 From Coq Require Import List ZArith Bool Lia.
 From Verif Require Import lib.Wire gen.Consts_c09 c09.Abs c09.Model_mem c09.Model_ds c09.Spec c09.Proofs_mem.
 Import ListNotations.
@@ -52,59 +52,110 @@ Proof.
   all: try (destruct o, e; reflexivity).
 Qed.
 
-Lemma holds_norm m tr : holds_from m (map norm_pair tr) = holds_from m tr.
+(* ---- in-memory model: every history is accepted --------------------------------- *)
+Lemma obs_ok_norm m a' e o x : obs_ok m a' e o (norm_obs x) = obs_ok m a' e o x.
+Proof. destruct x; cbn [norm_obs]; try reflexivity. all: try (destruct o, e; reflexivity). Qed.
+
+Lemma obs_ok_norm_e m a' e o x : obs_ok m a' (norm_obs e) o x = obs_ok m a' e o x.
+Proof. destruct e; cbn [norm_obs]; try reflexivity. all: try (destruct o, x; reflexivity). Qed.
+
+Lemma in_zdedup x l : In x (zdedup l) <-> In x l.
 Proof.
-  revert m. induction tr as [|[o x] r IH]; intros m; [reflexivity|].
-  cbn [map norm_pair fst snd holds_from]. rewrite mon_step_norm. destruct (mon_step m o x); [apply IH|reflexivity].
+  induction l as [|y r IH]; cbn [zdedup]; [tauto|].
+  destruct (zmem y r) eqn:M.
+  - rewrite IH. split; [now right|]. intros [<-|H]; [|exact H].
+    unfold zmem in M. apply existsb_exists in M. destruct M as [z [Hz E]]. apply Z.eqb_eq in E. now subst.
+  - cbn [In]. now rewrite IH.
 Qed.
 
-(* ---- in-memory model: every calm history is accepted --------------------------- *)
-Lemma mem_trace_eq_l ops : calm 0 ops = true ->
-  map norm_pair (m_trace m_init ops) = map norm_pair (a_trace a_init ops).
-Proof. intros H. apply (trace_eq_n (length ops)); [lia|exact Rel_init|exact H]. Qed.
-
-Lemma mem_holds_l ops : calm 0 ops = true -> holds (m_trace m_init ops) = true.
+Lemma peers_sub m z : In z (a_peers (m_abs m)) -> In z (m_peers m).
 Proof.
-  intros H. unfold holds. rewrite <- holds_norm, (mem_trace_eq_l ops H), holds_norm. apply holds_a_l.
+  unfold a_peers, m_peers. rewrite m_abs_eq. cbn [a_ents]. rewrite !in_zdedup.
+  intros H. apply in_map_iff in H. destruct H as [e [<- He]]. unfold Ls in He. apply filter_In in He.
+  destruct He as [He _]. unfold erase in He. apply in_map_iff in He. destruct He as [x [<- Hx]].
+  apply in_map_iff. exists x. tauto.
 Qed.
 
-(* after a calm history followed by a GC-separated state nothing expired is stored *)
-Lemma mem_bounded_l m a : Rel m a -> forall x, In x (m_ents m) -> live (m_now m) (me x) = true.
+Lemma live_in_peers m e : In e (erase (m_ents m)) -> live (m_now m) e = true -> In (ep e) (a_peers (m_abs m)).
 Proof.
-  intros [Hnow Hents _ _ Hgood _ _ _] x Hx. rewrite Hnow. apply Hgood. rewrite <- Hents. now apply in_map.
+  intros He Hl. unfold a_peers. rewrite m_abs_eq. cbn [a_ents]. apply in_zdedup. apply in_map.
+  unfold Ls. apply filter_In. tauto.
 Qed.
 
-Lemma rel_run_n n : forall ops m a, (length ops <= n)%nat -> Rel m a -> calm (a_now a) ops = true ->
-  Rel (m_run m ops) (a_run a ops).
+Lemma mem_holds_from ops : forall m cand, Inv m -> clock_ok (m_now m) ops = true ->
+  (forall e, In e (erase (m_ents m)) -> In (ep e) cand) ->
+  holds_from (mkMon (m_abs m) cand) (m_trace m ops) = true.
 Proof.
-  induction n as [|n IH]; intros ops m a Hlen HR Hc.
-  - destruct ops; [exact HR|cbn in Hlen; lia].
-  - destruct ops as [|o r]; [exact HR|].
-    assert (Generic : op_calm o = true -> calm (a_now a) r = true -> Rel (m_run m (o :: r)) (a_run a (o :: r))).
-    { intros Ho Hr. destruct (step_calm m a o HR Ho) as [HR' _]. cbn [m_run a_run].
-      apply IH; [cbn in Hlen; lia|exact HR'|]. now rewrite (a_step_now a o Ho). }
-    destruct o; try (cbn [calm] in Hc; apply andb_true_iff in Hc; destruct Hc as [H1 H2]; now apply Generic).
-    destruct r as [|o2 r2]; [cbn in Hc; discriminate|].
-    destruct o2; try (cbn in Hc; discriminate).
-    cbn [calm] in Hc. apply andb_true_iff in Hc. destruct Hc as [Hc H3].
-    apply andb_true_iff in Hc. destruct Hc as [H1 H2]. apply Z.leb_le in H1. apply Z.ltb_lt in H2.
-    destruct (step_advance_gc m a d HR H1 H2) as [HR' _].
-    cbn [m_run a_run]. apply IH; [cbn in Hlen; lia|exact HR'|].
-    cbn [a_step fst]. replace (a_now (a_advance a d)) with (a_now a + d); [exact H3|].
-    unfold a_advance, mk_norm. destruct (normalize _ _ _). reflexivity.
+  induction ops as [|o r IH]; intros m cand HI Hc Hcand; [reflexivity|].
+  destruct (clock_ok_step _ _ _ Hc) as [Ho Hr]. pose proof (step_all m o HI Ho) as S.
+  assert (Hap : forall x, In x (a_peers (m_abs m)) -> In x cand).
+  { intros z Hz. apply peers_sub in Hz. unfold m_peers in Hz. rewrite in_zdedup in Hz.
+    apply in_map_iff in Hz. destruct Hz as [x [<- Hx]]. apply Hcand. now apply in_map. }
+  pose proof (obs_ok_self (m_abs m) cand o Hap) as Self.
+  pose proof (m_step_now m o) as Hn. pose proof (gc_all_live m HI) as GL.
+  unfold step_ok in S. cbn [m_trace].
+  destruct (m_step m o) as [m' x] eqn:Em. destruct (a_step (m_abs m) o) as [a' e] eqn:Ea. cbn [fst] in Hn.
+  destruct S as [-> [HI' [Hobs Hold]]].
+  cbn [holds_from]. unfold mon_step. cbn [mo_a mo_cand]. rewrite Ea.
+  assert (OK : obs_ok (mkMon (m_abs m) (match o with OGC => a_peers (m_abs m') | _ => cand end)) (m_abs m') e o x = true).
+  { destruct o; try (cbn [obs_rel] in Hobs; rewrite <- obs_ok_norm, Hobs, obs_ok_norm; exact Self).
+    destruct Hobs as [-> ->]. cbn [obs_ok mo_cand]. apply andb_true_iff. split.
+    - apply incl_b_sub. apply peers_sub.
+    - apply incl_b_sub. intros z Hz. unfold m_peers in Hz. rewrite in_zdedup in Hz.
+      apply in_map_iff in Hz. destruct Hz as [y [<- Hy]]. apply Hcand. now apply in_map. }
+  rewrite OK. apply IH; [exact HI'|now rewrite Hn|].
+  intros e' He'. apply in_or_app.
+  destruct o; try (destruct (Hold e' He') as [Hl|[e0 [H0 <-]]]; [left; now apply live_in_peers|right; now apply Hcand]).
+  (* GC *)
+  left. cbn [m_step] in Em. injection Em as <- _. apply live_in_peers; [exact He'|now apply GL].
 Qed.
 
-Lemma mem_state_l ops : calm 0 ops = true ->
+Lemma mem_holds_l ops : clock_ok 0 ops = true -> holds (m_trace m_init ops) = true.
+Proof.
+  intros H. unfold holds, mon_init. change a_init with (m_abs m_init).
+  apply mem_holds_from; [exact Inv_init|exact H|intros e []].
+Qed.
+
+(* refinement: the model answers as the abstract book, operation by operation; only
+   PeersWithAddrs may additionally list peers whose addresses expired since the last GC *)
+Definition obs_refines (o : op) (spec model : obs) : Prop :=
+  match o with
+  | OPeers => exists ls lm, spec = OList ls /\ model = OList lm /\ (forall z, In z ls -> In z lm)
+  | _ => norm_obs model = norm_obs spec
+  end.
+
+Definition trace_refines (ta tm : list (op * obs)) : Prop :=
+  Forall2 (fun ae mx => fst ae = fst mx /\ obs_refines (fst ae) (snd ae) (snd mx)) ta tm.
+
+Lemma mem_refines_from ops : forall m, Inv m -> clock_ok (m_now m) ops = true ->
+  trace_refines (a_trace (m_abs m) ops) (m_trace m ops).
+Proof.
+  induction ops as [|o r IH]; intros m HI Hc; [constructor|].
+  destruct (clock_ok_step _ _ _ Hc) as [Ho Hr]. pose proof (step_all m o HI Ho) as S.
+  pose proof (m_step_now m o) as Hn. unfold step_ok in S. cbn [m_trace a_trace].
+  destruct (m_step m o) as [m' x] eqn:Em. destruct (a_step (m_abs m) o) as [a' e] eqn:Ea. cbn [fst] in Hn.
+  destruct S as [-> [HI' [Hobs _]]]. constructor.
+  - split; [reflexivity|]. cbn [fst snd]. destruct o; try exact Hobs.
+    destruct Hobs as [-> ->]. eexists. eexists. split; [reflexivity|split; [reflexivity|apply peers_sub]].
+  - apply IH; [exact HI'|now rewrite Hn].
+Qed.
+
+Lemma mem_refines_l ops : clock_ok 0 ops = true -> trace_refines (a_trace a_init ops) (m_trace m_init ops).
+Proof. intros H. change a_init with (m_abs m_init). apply mem_refines_from; [exact Inv_init|exact H]. Qed.
+
+(* the state after any history: abstraction = the abstract book's state; heap discipline;
+   records only for peers with a stored address; after a GC run everything stored is live *)
+Lemma mem_state_l ops : clock_ok 0 ops = true ->
   let m := m_run m_init ops in
-  (forall x, In x (m_ents m) -> live (m_now m) (me x) = true) /\
+  m_abs m = a_run a_init ops /\
   (forall x, In x (m_ents m) -> mheap x = negb (conn (ettl (me x)))) /\
-  (forall r, In r (m_recs m) -> m_has_peer (rp r) (m_ents m) = true).
+  (forall r, In r (m_recs m) -> m_has_peer (rp r) (m_ents m) = true) /\
+  (forall x, In x (m_ents (m_gc m)) -> live (m_now (m_gc m)) (me x) = true).
 Proof.
-  intros H. pose proof (rel_run_n (length ops) ops m_init a_init (le_n _) Rel_init H) as R.
-  cbn zeta. split; [|split].
-  - intros x Hx. eapply mem_bounded_l; eauto.
-  - destruct R. auto.
-  - destruct R as [_ He Hr _ _ Hok _ _]. intros r Hin. rewrite has_peer_erase, He. apply Hok. now rewrite <- Hr.
+  intros H. cbn zeta. destruct (abs_run ops m_init Inv_init H) as [A HI]. split; [now rewrite <- A|].
+  pose proof (gc_all_live _ HI) as GL. destruct HI as [Hf _ Hr _]. split; [exact Hf|split].
+  - intros r Hin. rewrite has_peer_erase. now apply Hr.
+  - intros x Hx. apply GL. now apply in_map.
 Qed.
 
 (* ---- sentences of the property, about A ----------------------------------------- *)
@@ -188,12 +239,6 @@ Proof.
   specialize (Hl e He). unfold live in *. apply Z.ltb_lt in Hl. apply Z.ltb_lt. lia.
 Qed.
 
-Lemma filter_filter {A} (f g : A -> bool) l : filter f (filter g l) = filter (fun x => g x && f x) l.
-Proof.
-  induction l as [|x r IH]; cbn [filter]; [reflexivity|].
-  destruct (g x); cbn [filter andb]; [destruct (f x)|]; now rewrite IH.
-Qed.
-
 (* setting a non-positive TTL removes exactly the named addresses *)
 Lemma set_nonpositive_removes_exactly_l s p addrs ttl :
   a_ok s -> ttl <= 0 ->
@@ -219,7 +264,7 @@ Proof.
   intros F. unfold a_consume. rewrite F. destruct (Z.ltb_spec seq (rseq r)); cbn [snd]; [discriminate|]. intros _. lia.
 Qed.
 
-(* ---- the full statements are false of the faithful models: witnesses ------------ *)
+(* ---- the histories that were findings on the unrepaired tree ------------------------- *)
 Definition CONN := ConnectedAddrTTL.
 Definition s_ (n : Z) : Z := n * SEC.
 
@@ -245,36 +290,28 @@ Definition wit_suffix : list op :=
 Definition wit_ds_gc : list op :=
   [OAdd 1 (s_ 120) [(1, 0)]; OAdvance (s_ 180); OGetRec 1; OGC; OPeers].
 
-Lemma mem_refuted_l :
-  holds (m_trace m_init wit_stale_seq) = false /\ holds (m_trace m_init wit_stale_class) = false /\
-  holds (m_trace m_init wit_resurrect) = false /\ holds (m_trace m_init wit_lapsed_record) = false /\
-  holds (m_trace m_init wit_suffix) = false.
-Proof. repeat split; vm_compute; reflexivity. Qed.
-
-Lemma ds_refuted_l :
-  holds (d_trace (d_init false 0) wit_lapsed_record) = false /\
-  holds (d_trace (d_init true 0) wit_lapsed_record) = false /\
-  holds (d_trace (d_init true 0) wit_ds_set0) = false /\
-  holds (d_trace (d_init false 0) wit_ds_set0) = true /\
-  holds (d_trace (d_init true 0) wit_suffix) = false /\
-  holds (d_trace (d_init true (s_ 30)) wit_ds_gc) = false /\
-  holds (d_trace (d_init true 0) wit_ds_gc) = true.
-Proof. repeat split; vm_compute; reflexivity. Qed.
-
-(* the two books answer differently on the same history *)
-Lemma mem_ds_differ_l :
-  map snd (m_trace m_init wit_stale_seq) <> map snd (d_trace (d_init true 0) wit_stale_seq) /\
-  map snd (d_trace (d_init false 0) wit_ds_set0) <> map snd (d_trace (d_init true 0) wit_ds_set0).
-Proof. split; vm_compute; discriminate. Qed.
-
-(* reopen changes an answer: the cached record object is gone after reopen *)
 Definition wit_reopen (re : bool) : list op :=
   [OConsume 1 5 1 (s_ 3600) false [(1, 0)]; OSet 1 0 [(1, 0)]] ++ (if re then [OReopen] else []) ++
   [OAdd 1 (s_ 3600) [(2, 0)]; OGetRec 1].
-Lemma ds_reopen_differs_l :
-  last (map snd (d_trace (d_init true 0) (wit_reopen false))) ONone <>
-  last (map snd (d_trace (d_init true 0) (wit_reopen true))) ONone.
-Proof. vm_compute. discriminate. Qed.
+
+(* the former findings (DESIGN 9 item 5 and relatives; fix commits 39ac082, c312de3, 6eab440):
+   every witness history is accepted now, on both models, in every configuration *)
+Definition all_wits : list (list op) :=
+  [wit_stale_seq; wit_stale_class; wit_resurrect; wit_lapsed_record; wit_ds_set0; wit_suffix; wit_ds_gc;
+   wit_reopen false; wit_reopen true].
+Definition ds_cfgs : list dbook := [d_init false 0; d_init true 0; d_init false (s_ 30); d_init true (s_ 30)].
+
+Lemma former_findings_absent_l :
+  forallb (fun w => holds (m_trace m_init w)) all_wits = true /\
+  forallb (fun c => forallb (fun w => holds (d_trace c w)) all_wits) ds_cfgs = true.
+Proof. split; vm_compute; reflexivity. Qed.
+
+(* ... and the books agree with each other and with A on them (GC sizes and peer lists included) *)
+Lemma witnesses_agree_l :
+  forallb (fun w => forallb (fun c =>
+     list_eqb (fun x y => obs_conform (norm_obs x) (norm_obs y))
+              (map snd (d_trace c w)) (map snd (a_trace a_init w))) ds_cfgs) all_wits = true.
+Proof. vm_compute. reflexivity. Qed.
 
 (* the repaired defects stay repaired in the models *)
 Definition wit_fixed1 : list op :=
@@ -287,14 +324,17 @@ Lemma fixed_witnesses_l :
   snd (last (d_trace (d_init false 0) wit_fixed2) (OPeers, ONone)) = OList [2].
 Proof. repeat split; vm_compute; reflexivity. Qed.
 
-(* non-vacuity: a calm history that exercises every operation, and the monitor rejecting bad traces *)
-Definition calm_example : list op :=
-  [OConsume 1 2 1 (s_ 900) false [(1, 0); (2, 0)]; OAdd 2 CONN [(3, 1); (4, 2)]; OUpdate 2 CONN (s_ 120);
-   OAdvance (s_ 120); OGC; OPeers; OAddrs 2; OSet 1 0 [(1, 0)]; OConsume 1 1 2 (s_ 900) false [(3, 0)];
-   OGetRec 1; OAdvance (s_ 780); OGC; OGetRec 1; OClear 1].
-Lemma calm_example_l : calm 0 calm_example = true /\
-  map snd (m_trace m_init calm_example) =
-  [OVal 1; ONone; ONone; ONone; OSizes 2 1 2; OList [1]; OList []; ONone; OVal 0; OVal 1; ONone; OSizes 0 0 0; OVal 0; ONone].
+(* non-vacuity: a history with clock advances not followed by GC, a negative UpdateAddrs TTL and
+   /p2p suffixes in a record satisfies the hypothesis, and exercises every operation *)
+Definition full_example : list op :=
+  [OConsume 1 2 1 (s_ 900) false [(1, 1); (2, 0)]; OAdd 2 CONN [(3, 1); (4, 2)]; OUpdate 2 CONN (s_ 120);
+   OAdvance (s_ 120); OPeers; OAddrs 2; OUpdate 2 (s_ 120) (s_ 3600); OAddrs 2; OGC; OPeers;
+   OSet 1 0 [(1, 0)]; OConsume 1 1 2 (s_ 900) false [(3, 0)]; OUpdate 1 (s_ 900) (-1); OGetRec 1;
+   OConsume 1 0 3 (s_ 900) false [(3, 0)]; OGetRec 1; OAdvance (s_ 900); OGetRec 1; OClear 1; OReopen].
+Lemma full_example_l : clock_ok 0 full_example = true /\
+  map snd (m_trace m_init full_example) =
+  [OVal 1; ONone; ONone; ONone; OList [1; 2]; OList []; ONone; OList []; OSizes 2 1 2; OList [1];
+   ONone; OVal 0; ONone; OVal 0; OVal 1; OVal 3; ONone; OVal 0; ONone; ONone].
 Proof. split; vm_compute; reflexivity. Qed.
 
 Lemma monitor_rejects_l :
